@@ -71,6 +71,9 @@ type Harness struct {
 	asserts  map[string]int // label -> discharged count
 	natSamples []*Failure   // selftest: models of completed paths to be run natively
 	natNext    int
+	maxPathSteps int // longest explored path, in SSA instructions
+	failedPaths  int // paths on which some assertion failed / a panic occurred
+	boundPaths   int // paths that ended by exhausting a step/loop/recursion bound or in a deadlock
 }
 
 func newHarness(name string, fn *ssa.Function) *Harness {
@@ -475,6 +478,7 @@ type Pool struct {
 	xNames    []string // secondary solvers re-deciding every xEvery-th query
 	xEvery    int
 	xStats    map[string]*xStat
+	kfs       []KnownFinding
 	natSample int // per harness: number of completed paths whose model is also run natively
 }
 
@@ -629,6 +633,32 @@ func (w *Worker) runJob(job Job) {
 	h.nPaths++
 	h.paths[reason]++
 	h.steps += int64(in.steps)
+	if in.steps > h.maxPathSteps {
+		h.maxPathSteps = in.steps
+	}
+	if reason == "hang" || reason == "unwind" || reason == "deadlock" {
+		// a tree on which paths keep running into the bounds would take for ever to enumerate:
+		// after 300 such paths the harness stops and is reported as incomplete (the failures
+		// recorded so far are reported as usual)
+		h.boundPaths++
+		if h.boundPaths >= 300 {
+			h.overflow = true
+		}
+	}
+	unknownFail := false
+	for _, f := range in.failures {
+		if matchKnown(w.pool.kfs, f) == nil {
+			unknownFail = true
+		}
+	}
+	if unknownFail {
+		// likewise a harness on which tens of thousands of paths fail has made its point
+		// (paths failing only with a listed known finding do not count)
+		h.failedPaths++
+		if h.failedPaths >= 20000 {
+			h.overflow = true
+		}
+	}
 	if in.reached {
 		h.reach++
 	}
